@@ -14,7 +14,8 @@ EXPLANATION = ('For every operator sequence up to the bound over + - * / ^ || (w
                'never identified). Every rendering of one skeleton (spaces, tabs/newlines between tokens, em-dash minus, redundant parentheses) '
                'must give the same term. Number formats x suffix multipliers and case-sensitive name resolution are checked with symbolic '
                'suffix values / variable values. The accepted LANGUAGE is decided on symbolic strings: for every Unicode string up to the bound the real '
-               'parser (real pyparsing on symbolic characters) accepts exactly when an independent recursive-descent recogniser of the documented grammar does.')
+               'parser (real pyparsing on symbolic characters) accepts exactly when an independent recursive-descent recogniser of the documented grammar does.'
+               ' Concrete companions (values the solver cannot produce): names bound to every numeric carrier type (python/numpy integers, floats, complex scalars, arrays) and function VALUES flowing through powers and the other operators, compared with cmath references.')
 ASSUMPTIONS = ['operands are any reals in [-3,3] (zero included) except bases of powers, which range over [1/2,3] so that real powers are defined; '
                'exponents and all intermediate values are unrestricted', 'x^y with a non-literal exponent is abstracted as an uninterpreted function pow(x,y) on both sides']
 BOUNDS = {'quick': 'all operator sequences of length <= 4 (1554 skeletons) x unary-minus placements (none, each single position, all) x 6 renderings; accepted language: all Unicode strings of length <= 3',
